@@ -46,13 +46,34 @@ def xenv(hashseed: str) -> T.Dict[str, str]:
 
 
 def model_check(chk: Check, quick: bool) -> T.List[T.Dict[str, T.Any]]:
+    """quick: the family with one sub-directory placement, mutations explored on the chains.
+    thorough: the whole family with mutations on the chains, and (in parallel) the small placement with mutations on
+    every project."""
     cfg = (SPECS / 'xcode' / 'Xcode_MC.cfg').read_text()
-    if not quick:
-        cfg = cfg.replace('Mutate = "chains"', 'Mutate = "all"')
-    res = run_tlc(SPECS / 'xcode', 'Xcode_MC', cfg_text=cfg, collect=['xfamily.json'], timeout=3400, workers=8,
-                  allow_violation=False)
-    chk.add_tlc('Xcode_MC[' + ('mutations on chains' if quick else 'mutations on the whole family') + ']', res)
-    return T.cast(T.List[T.Dict[str, T.Any]], json.loads(res.collected['xfamily.json']))
+    small = cfg.replace('LocSet = "all"', 'LocSet = "small"')
+    runs = [('Xcode_MC[LocSet=small,Mutate=chains]', small, True)] if quick else \
+        [('Xcode_MC[LocSet=all,Mutate=chains]', cfg, True),
+         ('Xcode_MC[LocSet=small,Mutate=all]', small.replace('Mutate = "chains"', 'Mutate = "all"').replace('POSTCONDITION EmitFamily\n', ''), False)]
+    out: T.Dict[str, T.Any] = {}
+    errs: T.List[BaseException] = []
+
+    def one(name: str, text: str, emit: bool) -> None:
+        try:
+            out[name] = run_tlc(SPECS / 'xcode', 'Xcode_MC', cfg_text=text, collect=['xfamily.json'] if emit else [],
+                                timeout=3400, workers=8, allow_violation=False)
+        except BaseException as e:  # re-raised in the main thread
+            errs.append(e)
+
+    th = [threading.Thread(target=one, args=r) for r in runs]
+    for t in th:
+        t.start()
+    for t in th:
+        t.join()
+    if errs:
+        raise errs[0]
+    for name, _, _ in runs:
+        chk.add_tlc(name, out[name])
+    return T.cast(T.List[T.Dict[str, T.Any]], json.loads(out[runs[0][0]].collected['xfamily.json']))
 
 
 # ---------------------------------------------------------------------------
@@ -165,6 +186,91 @@ def judge(chk: Check, cases: T.List[T.Dict[str, T.Any]], label: str, chunk: int 
         chk.add_tlc(f'TraceXcode[{label}#{k}]', res, model=False)
         bad.extend(out[k] or [])
     return bad
+
+
+# ---------------------------------------------------------------------------
+# (A') scalar level: the strings of PlistLex_MC through meson's property-list writer
+
+
+def plist_model(chk: Check, quick: bool) -> T.List[T.List[str]]:
+    cfg = (SPECS / 'xcode' / 'PlistLex_MC.cfg').read_text()
+    res = run_tlc(SPECS / 'xcode', 'PlistLex_MC', cfg_text=cfg, collect=['strings.json'], timeout=1200, workers=4,
+                  allow_violation=False)
+    chk.add_tlc('PlistLex_MC[N=3]', res)
+    if not quick:
+        res4 = run_tlc(SPECS / 'xcode', 'PlistLex_MC', cfg_text=cfg.replace('N = 3', 'N = 4').replace('POSTCONDITION Emit\n', ''),
+                       timeout=3000, workers=4, allow_violation=False)
+        chk.add_tlc('PlistLex_MC[N=4]', res4)
+    return T.cast(T.List[T.List[str]], json.loads(res.collected['strings.json']))
+
+
+def writer_cases(strings: T.List[T.List[str]]) -> T.List[T.Dict[str, T.Any]]:
+    """Executed in a worker process: every string as a dictionary value and as an array item of the real writer."""
+    import io
+    common.use_repo_meson()
+    from mesonbuild.backend import xcodebackend as xb
+    out: T.List[T.Dict[str, T.Any]] = []
+    for k, chars in enumerate(strings):
+        s = ''.join(chars)
+        d = xb.PbxDict()
+        d.add_item('k', s)
+        buf = io.StringIO()
+        d.write(buf, 0)
+        text = buf.getvalue()
+        pre, post = '{\n\tk = ', ';\n}\n'
+        if not (text.startswith(pre) and text.endswith(post)):
+            raise MachineryError('unexpected PbxDict layout: ' + repr(text))
+        out.append({'id': f'D{k}', 'place': 'dict', 's': list(chars), 't': list(text[len(pre):-len(post)])})
+        a = xb.PbxArray()
+        a.add_item(s)
+        buf = io.StringIO()
+        a.write(buf, 0)
+        text = buf.getvalue()
+        pre, post = '(\n\t', ',\n);\n'
+        if not (text.startswith(pre) and text.endswith(post)):
+            raise MachineryError('unexpected PbxArray layout: ' + repr(text))
+        out.append({'id': f'R{k}', 'place': 'array', 's': list(chars), 't': list(text[len(pre):-len(post)])})
+    return out
+
+
+def judge_writer(chk: Check, cases: T.List[T.Dict[str, T.Any]]) -> T.List[T.Dict[str, T.Any]]:
+    bad: T.List[T.Dict[str, T.Any]] = []
+    for k, part in enumerate(common.chunks(cases, 13000)):
+        with common.scratch('x05w-') as d:
+            tf = d / 'cases.json'
+            tf.write_text(json.dumps(list(part)))
+            res = run_tlc(SPECS / 'xcode', 'TracePlistLex', env={'TRACE_FILE': str(tf)}, timeout=3000, workers=4)
+            if not res.clean:
+                raise MachineryError('TracePlistLex did not complete cleanly:\n' + res.stdout[-2500:])
+            if res.distinct != 2 * len(part):
+                raise MachineryError(f'TracePlistLex judged {res.distinct // 2} of {len(part)} cases')
+            chk.add_tlc(f'TracePlistLex[#{k}]', res, model=False)
+            bad.extend(res.json_lines())
+    return bad
+
+
+def report_writer(chk: Check, bad: T.List[T.Dict[str, T.Any]]) -> None:
+    """One signature per (place, written with/without quotation marks): the set of single characters that do not
+    read back; a longer failing string that contains none of them gets a signature of its own."""
+    def show(s: T.List[str]) -> str:
+        return json.dumps(''.join(s), ensure_ascii=True)[1:-1]
+    groups: T.Dict[T.Tuple[str, bool], T.List[T.List[str]]] = {}
+    for v in bad:
+        groups.setdefault((v['place'], bool(v['wrote_quotes'])), []).append(list(v['s']))
+    single_by_place: T.Dict[str, T.Set[str]] = {}
+    for (place, _), ss in groups.items():
+        single_by_place.setdefault(place, set()).update(s[0] for s in ss if len(s) == 1)
+    for (place, quoted), ss in sorted(groups.items()):
+        singles = sorted({s[0] for s in ss if len(s) == 1})
+        how = 'quoted-unescaped' if quoted else 'bare'
+        examples = [show(s) for s in ss[:6]]
+        if singles:
+            chk.violation(f"ScalarReadsBack:{place}:{how}[{show(singles)}]", {'place': place, 'examples': examples, 'count': len(ss)})
+        if any(len(s) == 0 for s in ss):
+            chk.violation(f'ScalarReadsBack:{place}:{how}:empty-string', {'place': place})
+        for s in ss:
+            if len(s) > 1 and not (set(s) & single_by_place.get(place, set())):
+                chk.violation(f'ScalarReadsBack:{place}:{how}:{show(s)}', {'place': place, 's': show(s)})
 
 
 # ---------------------------------------------------------------------------
@@ -335,12 +441,14 @@ def pick_family(fam: T.List[T.Dict[str, T.Any]], rnd: random.Random, n: int) -> 
 def main(chk: Check) -> None:
     quick = chk.tier == 'quick'
     rnd = random.Random(chk.seed * 1000003 + 505)
-    n_family = 36 if quick else 10 ** 9
-    n_random = 20 if quick else 320
-    chk.rule = ('A: abstract projects of the TLC family (seeded sample in the quick tier: a third chains, a third pairs with a '
-                'test, a third any; the whole family in the thorough tier), B: seeded random projects of 3-14 targets and four '
-                'fixed probes; every project is configured twice by the real Xcode backend. Non-trivial = a configured project '
-                'whose pbxproj has >= 60 objects, distinct by abstract project.')
+    n_family = 36 if quick else 900
+    n_random = 20 if quick else 200
+    chk.max_reported = 200
+    chk.rule = ('A: abstract projects of the TLC family (seeded sample: a third chains, a third pairs with a test, a third '
+                "any; 36 quick / 900 thorough), A': every string of <= 3 characters of PlistLex_MC as dictionary value and as "
+                'array item of the real property-list writer, B: seeded random projects of 3-14 targets and four fixed probes; '
+                'every project is configured twice by the real Xcode backend. Non-trivial = a configured project whose pbxproj '
+                'has >= 60 objects (distinct by abstract project), or a string that needs quotation marks.')
     t0 = time.time()
     stages: T.Dict[str, float] = {}
     bjobs: T.List[T.Dict[str, T.Any]] = []
@@ -355,7 +463,9 @@ def main(chk: Check) -> None:
     with ProcessPoolExecutor(max_workers=common.NCPU) as ex:
         bfut = [ex.submit(run_case, j) for j in bjobs]
         fam = model_check(chk, quick)
+        strings = plist_model(chk, quick)
         stages['model_check'] = round(time.time() - t0, 1)
+        wfut = [ex.submit(writer_cases, list(part)) for part in common.chunks(strings, 2000)]
         chk.extra['family_size'] = len(fam)
         jobs = []
         for k, p in enumerate(pick_family(fam, rnd, n_family)):
@@ -365,6 +475,12 @@ def main(chk: Check) -> None:
             cases.append(case)
         for f in bfut:
             cases.append(f.result())
+        wcases: T.List[T.Dict[str, T.Any]] = []
+        for f in wfut:
+            part = f.result()
+            for c in part:      # ids are per chunk: make them unique
+                c['id'] = f"{c['id']}.{len(wcases)}"
+            wcases.extend(part)
     stages['configure'] = round(time.time() - t0 - stages['model_check'], 1)
     chk.extra['configured'] = sum(1 for c in cases if c['configured'])
     chk.extra['objects_total'] = sum(c['info'].get('objects', 0) for c in cases)
@@ -381,6 +497,17 @@ def main(chk: Check) -> None:
     stages['judge'] = round(time.time() - t0 - stages['model_check'] - stages['configure'], 1)
     chk.extra['stage_wall_s'] = stages
     report(chk, by_id, bad)
+    wbad = judge_writer(chk, wcases)
+    chk.traces += len(wcases)
+    chk.evaluations += len(wcases)
+    chk.extra['writer_strings'] = len(strings)
+    safe = set('abcdefghijklmnopqrstuvwxyzABCDEFGHIJKLMNOPQRSTUVWXYZ0123456789_$/:.-')
+    for cs in strings:
+        if not cs or set(cs) - safe:
+            chk.nontriv('str:' + ''.join(cs))
+    chk.sample({'writer_case': wcases[len(wcases) // 3]}, limit=8)
+    report_writer(chk, wbad)
+    stages['writer'] = round(time.time() - t0 - sum(stages.values()), 1)
     chk.exhaustive = False
     chk.assumptions += [
         'the ids of the generated file are random by design (XCodeBackend.gen_id = uuid4): determinism is judged modulo a '
@@ -408,6 +535,16 @@ def report(chk: Check, by_id: T.Dict[str, T.Dict[str, T.Any]], bad: T.List[T.Dic
 
 def replay(chk: Check, data: T.Dict[str, T.Any]) -> None:
     det = data['detail']
+    if data['signature'].startswith('ScalarReadsBack:'):
+        strings = plist_model(chk, True)
+        wbad = judge_writer(chk, writer_cases(strings))
+
+        class _Pick:
+            def violation(self, sig: str, detail: T.Any) -> None:
+                if sig == data['signature']:
+                    chk.violation(sig, detail)
+        report_writer(T.cast(Check, _Pick()), wbad)
+        return
     job = {'id': det['id'], 'p': projgen.normalize(det['p_full']), 'tag': det.get('tag', ''), 'files': det.get('files', {})}
     case = run_case(job)
     bad = judge(chk, [case], 'replay')
